@@ -7,6 +7,11 @@ ENGINES = [
 TRUST = "Trusted: TLC + CommunityModules Json/IOUtils; the TLA+ definitions; the Python driver that calls the public API and projects results to JSON (no oracle logic in Python)."
 
 CHECKS = {
+    "C24": {
+        "text": "EffectConflicts.tla: Impl layer (effects, assigned, incdec, sim bookkeeping updated in the code's order, one action per outcome) against the Spec layer (a collection conflicts iff some pair conflicts; a rejected call changes nothing); T1: TLC checks VerdictOK, BookkeepingOK, RejectUnchanged, OrderFree for all call sequences within bounds. T2/T3: every TLC-enumerated call history over a 33-call universe (assign/increase/decrease, conditional or not, several fluents and values, simulated effects) is replayed on InstantaneousAction, DurativeAction timings and Problem timed effects; after every call the exception class, stored effects and probe answers (cloned container + each candidate effect) are recorded; TLC judges each step and order independence of whole histories.",
+        "note": TRUST + " Histories of <= 3 calls exhaustive over the full universe (4 over the core), longer ones sampled.",
+        "technique": "TLA+ two-layer model of the conflict bookkeeping (TLC) + trace validation of TLC-enumerated insertion histories on the real containers",
+    },
     "C25": {
         "text": "T1: TLC exhaustively checks that the implementation-shaped DeltaSTN layer (adjacency lists, _is_subsumed, incremental Bellman-Ford) satisfies the declarative layer (Floyd-Warshall consistency, least non-negative model, independent copies) within small constants. T2/T3: every TLC-enumerated call history of length 3 over 3 events and thousands of seeded long rational histories are replayed on the real DeltaSimpleTemporalNetwork and each recorded trace is validated step by step against the specification's actions and both layers' predicates.",
         "note": TRUST + " Bounds: 3-4 events and <=4 calls exhaustive, 6 events/40 calls sampled; epsilon=0; rationals judged after scaling by the lcm of denominators.",
@@ -61,6 +66,11 @@ CHECKS.update({
         "text": "ProtoForms.tla defines the form space (numeric type forms, constants up to and beyond int64 via BigArith limbs, timepoint kinds x delays, interval openness, effect kinds, metric kinds, plan kinds, result kinds): TLC emits 657 minimal artefacts, one per combination; plus generated problems with plans/results and the bundled examples. Each goes through ProtobufWriter -> bytes -> ProtobufReader; ProtoJudge.tla decides NormUPJ(project(read(write(x)))) = NormUPJ(project(x)) by TLC value equality (bags where the model holds unordered collections), kind equality, and the implementation's own ==.",
         "note": TRUST + " Thinnest use of the technique (a codec has one transition): the specification contributes the exhaustive form space and the independent notion of equality. Scheduling problems, hierarchical plans and schedules are judged by == and kind only.",
         "technique": "TLC-enumerated form space; round-trip results judged by TLC value equality on the abstract projection",
+    },
+    "C16": {
+        "text": "ExprManager.tla: variables table (content -> id) and nextId, actions Mk / MkReject with exactly the documented normalisations (And/Or/Plus/Times with 0 or 1 argument, double negation, GE/GT mirrored, canonical Int/Real constants) and typing over bool/int/real; invariants: ids injective, same content => same id, the table only grows and keeps its entries, only well-typed nodes stored; T1 relates the id layer to a declarative term layer (NormalForm, HashCons, AcceptIffWellTyped, RejectRepeatable, RejectKeepsTable). T2/T3: TLC-enumerated construction histories (every call over 17 constructors made twice and re-spelt, ill-typed attempts repeated) are replayed on a fresh Environment each; returned node ids, operators, children and payloads are recorded after every call and all earlier nodes re-read at the end; the trace spec judges 18 clauses.",
+        "note": TRUST + " Fragment: bool/int/real constructors; XOr, EqualsOrIff, quantifiers, Dot, parameters, objects, timings and bounded numeric types are not covered.",
+        "technique": "TLA+ hash-consing model checked by TLC + trace validation of TLC-enumerated construction histories on fresh environments",
     },
     "C17": {
         "text": "Linear.tla decides semantic monotonicity and affinity of a numeric expression by exhaustive evaluation on the finite declared domains (exact rationals via UPExpr!Eval); LinearAnalysis.tla models the checker's walk rules (as written and repaired) and TLC compares both with the real answers. TLC enumerates expressions to depth 2 (3-4 thorough) over bounded int fluents, a bounded parameter (negative and sign-straddling ranges), a static fluent and constants; LinearChecker.get_fluents (and Problem.kind's SIMPLE_NUMERIC_PLANNING decision) are recorded and judged: only-positive => non-decreasing, only-negative => non-increasing, linear => affine.",
